@@ -340,7 +340,7 @@ func c14FirstChild() {
 }
 
 func runC14(c *ctx) {
-	c.Rule = "exhaustive: all 65536 (PType,SType) pairs x 4 fillings of the other header bytes for Type() and the generic constructor; all 65536 session ids for each request constructor; all 256 status/reason codes; reject.req over all 256x256 (pType,sType) for reason 2 and a non-2 reason; every (request kind x response constructor) pair including a data message and an undefined message as the wrong request; headers shorter than ten bytes; system bytes boundary + random. Each constructed message is also decoded and compared. non-trivial = SType defined or PType != 0; distinct by (constructor, header) Also (rounds 6-8): returned bytes overwritten and encoded again; one request answered three times with different status; requests wrapped in a caller's type; the first Type() calls of a process made from all cores in 96/960 fresh child processes. Also (round 9): sessions 0, 10, 14, 0x0A00, 0x0E00, 0xFFFF x all 256 codes x system bytes that read like a length field."
+	c.Rule = "exhaustive: all 65536 (PType,SType) pairs x 4 fillings of the other header bytes for Type() and the generic constructor; all 65536 session ids for each request constructor; all 256 status/reason codes; reject.req over all 256x256 (pType,sType) for reason 2 and a non-2 reason; every (request kind x response constructor) pair including a data message and an undefined message as the wrong request; headers shorter than ten bytes; system bytes boundary + random. Each constructed message is also decoded and compared. non-trivial = SType defined or PType != 0; distinct by (constructor, header) Also (rounds 6-8): returned bytes overwritten and encoded again; one request answered three times with different status; requests wrapped in a caller's type; the first Type() calls of a process made from all cores in 96/960 fresh child processes. Also (round 9): sessions 0, 10, 14, 0x0A00, 0x0E00, 0xFFFF x all 256 codes x system bytes that read like a length field. Also (round 10): every constructor is called right after every refused answer (non-zero status) and its layout compared."
 	c.Assume = []string{"the layout table in the property statement", "NewHSMSControlMessage with more than ten bytes is outside the stated domain (it panics; a panic is a refusal) and is not asserted"}
 	c.Exhaust = true
 	// the very first Type() calls of a process, from as many goroutines as there are cores, released by a spin barrier
